@@ -86,6 +86,11 @@ CLAIMS['C09'] = dict(level='other', technique='dominance / must-pass / true-edge
     note='Narrow necessary conditions; union/order-independence are equalities between run-time trees built by a data-dependent positional walk.',
     ref='§4 C09')
 
+CLAIMS['C07'] = dict(level='other', technique='dominance and true-edge guard (must-pass) queries on MIR for every element insertion and value store, who-may-call closure of the inserting functions over the resolved call graph, sibling agreement of all find_attribute_spec users on the version column, DATA rule on the literal tables',
+    text='Decides that editor and validator consult the same specification columns: all 8 entry points that add a sub element consult calc_element_insert_range(name, file version) first and insert at a position from/within that range; the inserting helpers have no other callers; created elements get the type of a version-specific lookup, copied elements the type the destination prescribes, moved elements are accepted only if their type equals it; inside the range computation version-independent lookups occur only as or_else fallback; every store of character data / attribute values is behind check_value or parse (reviewed exceptions listed, one known finding); every find_attribute_spec user tests the attribute version mask. Does NOT decide that the computed insert range is exactly the set of order-preserving positions, nor the serializer/loader round trip.',
+    note='Three genuine defects found by these rules were repaired (attribute version in the setters, type of copied and of moved elements); one is recorded (over-long generated item name).',
+    ref='§4 C07')
+
 NA = {
     'C16': 'serialisability quantifies over interleavings and compares with sequential runs; the only static route (two-phase/reduction analysis) rejects essentially every public operation of the present design, so it cannot separate code that holds the property from code that does not',
     'C20': 'statement about numeric results (exactness, correct rounding, overflow per width) computed by std parsers for all texts; no static argument in reach bounds these run-time quantities',
